@@ -605,4 +605,10 @@ def checkD (env : EnumEnv) (fuel : Nat) (ty : Ty) (pats : List DPat) : Option (L
 def check (env : EnumEnv) (fuel : Nat) (ty : Ty) (arms : List Pat) : Option (List Bool × List DPat) :=
   checkD env fuel ty (arms.map (fromAst env ty))
 
+/-- `let pat = …` / `var pat = …` / `for pat in …`: the pattern is checked like the single arm of a
+    match on the bound value's type (repaired behaviour of D96: a refutable pattern is rejected);
+    `true` = accepted -/
+def checkLet (env : EnumEnv) (fuel : Nat) (ty : Ty) (p : Pat) : Option Bool :=
+  (check env fuel ty [p]).map (fun r => r.2.isEmpty)
+
 end Abra.PatMatrix
